@@ -136,6 +136,19 @@ pub fn record(args: &Args) {
             }
         }
     }
+    // multiplicity family: the order variants of one multiset of spends / conditions, pairwise against the first
+    if args.u64("flood", 0) > 0 {
+        for (label, trees) in flood_groups() {
+            for fl in [vec!["DONT_VALIDATE_SIGNATURE"], vec!["DONT_VALIDATE_SIGNATURE", "COST_CONDITIONS"]] {
+                let flags: Vec<String> = fl.iter().map(|x| (*x).to_string()).collect();
+                let a = res(&trees[0], &flags, 11_000_000_000, "mempool", &consts);
+                for t2 in &trees[1..] {
+                    let b = res(t2, &flags, 11_000_000_000, "mempool", &consts);
+                    out.emit(&json!({"k": "perm", "src": "flood", "label": label, "flags": flags, "vis": "mempool", "a": a, "b": b}));
+                }
+            }
+        }
+    }
     // LIMIT_SPENDS: bundles of 5999, 6000 and 6001 trivial spends (relation on observed results only)
     if args.u64("limit-spends", 0) > 0 {
         for count in [5999usize, 6000, 6001] {
